@@ -15,3 +15,4 @@ import BnpVerif.Props.C11
 #print axioms C11.rechunk
 #print axioms C11.chunkEntriesOld_unsound
 #print axioms C11.chunkLinesOld_unsound
+#print axioms C11.streamComputeOld_unsound
